@@ -451,6 +451,22 @@ func (w *world) compareDumps(phase string) *hx.Failure {
 	if !differ {
 		return nil
 	}
+	if class == "subscribed-topics" && w.p2p != nil {
+		var rt, tt string
+		for _, s := range dr.out {
+			if s.class == class {
+				rt = s.text
+			}
+		}
+		for _, s := range dt.out {
+			if s.class == class {
+				tt = s.text
+			}
+		}
+		if w.p2p.explainsTopicDiff(rt, tt) {
+			return hx.Failf(sigTopicRace, "step %d (%s): %s%s", w.step, phase, desc, w.history())
+		}
+	}
 	if w.restarts == 0 {
 		hx.Harnessf("step %d (%s): dumps of R and T differ although R was never restarted: %s", w.step, phase, desc)
 	}
